@@ -10,7 +10,7 @@ from tools import vlib
 from tools.vlib import Outcome, sx
 
 MANIFEST = {
-    "level_text": "Coq theorems (Properties/C20.v, no axioms) about a statement-by-statement Gallina transcription of topological_visit/topological_sort_types and of resolve_build_order, for every graph, request set and hash iteration order: termination, exactly-once, exactly the reachable set, every direct dependency first unless on a common cycle (transitively on acyclic graphs), Kahn Ok iff acyclic and Ok lists valid. The model is tied to /repo on every run by running both on the same graphs under the hash orders the implementation actually used (equal output lists), exhaustively on small graphs.",
+    "level_text": "Coq theorems (Properties/C20.v, no axioms) about a statement-by-statement Gallina transcription of topological_visit/topological_sort_types and of resolve_build_order, for every graph, request set and hash iteration order: termination, exactly-once, exactly the reachable set, every direct dependency first unless on a common cycle (transitively on acyclic graphs), Kahn Ok iff acyclic and Ok lists valid. The model is tied to /repo on every run by running both on the same graphs: the implementation's output must equal the model's under the hash iteration orders the process actually had or under sorted name order (the tree sorts before iterating since the C13 repair; the theorems hold for every order), exhaustively on small graphs.",
     "design_ref": "DESIGN.md section 5 C20",
     "level_note": "Trusted: Coq kernel; the hand-written model's tie to the code is differential (bounded); run-time oracle proved equivalent to the statements (C20_*_oracle_exact); hash orders of DependencyResolver are not observable so only Ok/Err and validity are compared there.",
     "technique": "Rocq/Coq proof over hand-written model + correspondence check (extracted OCaml vs Rust harness)"
@@ -21,7 +21,7 @@ RULE = ("topo: every digraph on <=3 (quick) / <=4 (thorough) labelled nodes incl
         "drawn from those digraphs plus random multigraphs with duplicate edges. A case is non-trivial when it has at least "
         "one edge; distinct = distinct (graph, request) pairs")
 TRUSTED = ["Spec/P20.v boolean checkers are the run-time oracle applied to the implementation's answers; proved equivalent to the Prop statements (C20_topo_oracle_exact, C20_kahn_oracle_exact)"]
-ASSUMPTIONS = ["HashSet iteration order of an unmodified set is stable between two traversals (used to feed the observed order to the model)"]
+ASSUMPTIONS = ["HashSet iteration order of an unmodified set is stable between two traversals (used to feed the observed order to the model)", "the implementation iterates each set either in its hash order or in sorted name order; any other deterministic order would show as a correspondence break (no-failing-input-found), not as a property violation"]
 
 
 def all_graphs(n):
@@ -97,8 +97,13 @@ def eval_topo(cases):
         if "panic" in o or o.get("skipped"):
             continue
         for k, r in enumerate(o["runs"]):
+            # the model is evaluated under the hash iteration orders the process had and under
+            # sorted name order; the implementation must equal the model under one of them
+            # (C20's theorems hold for every order, so either validates the model)
             sexps.append(sx([r["adj"], r["req"], r["out"]]))
-            index.append((c["id"], k))
+            index.append((c["id"], k, "hash"))
+            sexps.append(sx([r["adj_sorted"], r["req_sorted"], r["out"]]))
+            index.append((c["id"], k, "sorted"))
     res = vlib.run_runner("c20-topo", sexps)
     by = {}
     for key, r in zip(index, res):
@@ -114,14 +119,17 @@ def eval_topo(cases):
         corr = ok = True
         det = None
         for k, r in enumerate(o["runs"]):
-            m = by[(c["id"], k)]
-            if m and m[0] == "runner-error":
-                raise vlib.BuildError("runner: %s" % m)
-            model_out = [int(x) for x in m[0][0]] if m[0] else None
-            this_corr = model_out == r["out"]
-            this_ok = m[1] == "true"
+            this_corr = False
+            model_outs = {}
+            for which in ("hash", "sorted"):
+                m = by[(c["id"], k, which)]
+                if m and m[0] == "runner-error":
+                    raise vlib.BuildError("runner: %s" % m)
+                model_outs[which] = [int(x) for x in m[0][0]] if m[0] else None
+                this_corr = this_corr or model_outs[which] == r["out"]
+            this_ok = m[1] == "true"       # the oracle looks at the graph and the output only
             if det is None or not (this_corr and this_ok):
-                det = {"orders": {"adj": r["adj"], "req": r["req"]}, "impl": r["out"], "model": model_out,
+                det = {"orders": {"adj": r["adj"], "req": r["req"]}, "impl": r["out"], "model": model_outs,
                        "oracle_ok": this_ok}
             corr &= this_corr
             ok &= this_ok
